@@ -29,7 +29,8 @@ EXPLANATION = (
     "carquet_zstd_decompress, executed against a model of libzstd for a valid frame (content size recorded "
     "in the frame or absent - streaming encoders omit it -, decompression context available or not, frame "
     "equal to / below the capacity), returns OK with the decoded size and hands the library the caller's "
-    "extents; a frame larger than the destination is an error. "
+    "extents; a frame larger than the destination is an error; (9) a read that spans pages appends values, "
+    "definition and repetition levels where the previous page stopped (shared with C02.7). "
     "Decides these clauses, not that decoded values/levels equal the stored ones.")
 
 PR = "src/reader/page_reader.c"
@@ -57,6 +58,9 @@ def run(ctx):
     ctx.clause("C06.8 the ZSTD wrapper accepts every valid frame that fits, with or without a recorded content size")
     from ..rules import codecwrap
     nzs = codecwrap.check(ctx)
+    ctx.clause("C06.9 values, definition and repetition levels of a multi-page read land where the previous page stopped (rule shared with C02.7)")
+    from . import C02
+    C02._stitching(ctx)
     ctx.clause("C06.6 multi-byte integers are assembled little-endian on the decoding side")
     from ..rules import endian
     efns = P.funcs_under("src/encoding/", "src/compression/", "src/reader/", "src/thrift/", "src/core/", "src/util/", "src/metadata/")
